@@ -527,3 +527,381 @@ Proof.
   intros k v sel st E. unfold assign. destruct (own_name k); [eexists; reflexivity |].
   destruct sel; [eexists; reflexivity |]. rewrite E. simpl. eexists. reflexivity.
 Qed.
+
+(* ================================================================================================ *)
+(* remove_all                                                                                       *)
+(* ================================================================================================ *)
+Lemma nodup_app {A} (a b : list A) :
+  NoDup (a ++ b) <-> NoDup a /\ NoDup b /\ (forall x, In x a -> ~ In x b).
+Proof.
+  induction a as [|x a IH]; simpl.
+  - split; [intro H; repeat split; [constructor | exact H | intros x []] | intros [_ [H _]]; exact H].
+  - split.
+    + intro H. inversion H as [|? ? Hx Hn]; subst. apply IH in Hn as [Ha [Hb Hd]].
+      repeat split.
+      * constructor; [intro Hi; apply Hx, in_or_app; left; exact Hi | exact Ha].
+      * exact Hb.
+      * intros y [-> | Hy]; [intro Hi; apply Hx, in_or_app; right; exact Hi | apply Hd, Hy].
+    + intros [Ha [Hb Hd]]. inversion Ha as [|? ? Hx Hn]; subst. constructor.
+      * intro Hi. apply in_app_or in Hi as [Hi | Hi]; [contradiction | exact (Hd x (or_introl eq_refl) Hi)].
+      * apply IH. repeat split; [exact Hn | exact Hb | intros y Hy; apply Hd; right; exact Hy].
+Qed.
+
+Lemma filter_all {A} (p : A -> bool) l : (forall x, In x l -> p x = true) -> filter p l = l.
+Proof.
+  induction l as [|x l IH]; simpl; intro H; [reflexivity |].
+  rewrite (H x (or_introl eq_refl)), IH; [reflexivity | intros y Hy; apply H; right; exact Hy].
+Qed.
+
+Lemma filter_filter {A} (p q : A -> bool) l : filter p (filter q l) = filter (fun x => q x && p x) l.
+Proof.
+  induction l as [|x l IH]; simpl; [reflexivity |].
+  destruct (q x); simpl; [destruct (p x); rewrite IH; reflexivity | exact IH].
+Qed.
+
+(* ---- list level -------------------------------------------------------------------------------- *)
+Lemma remove_child_filter o ch : fst (remove_child o ch) = filter (fun c => negb (has_obj o c)) ch.
+Proof.
+  unfold remove_child. destruct (existsb (has_obj o) ch) eqn:E; simpl; [reflexivity |].
+  symmetry. apply filter_all. intros c Hc. apply negb_true_iff.
+  destruct (has_obj o c) eqn:Eo; [| reflexivity].
+  assert (existsb (has_obj o) ch = true) by (apply existsb_exists; exists c; split; assumption). congruence.
+Qed.
+
+Definition obj_in (sel : list task) (o : nat) : bool := existsb (fun s => Nat.eqb (t_obj s) o) sel.
+
+Lemma list_remove_fold sel ch :
+  fold_left (fun g t => fst (remove_child (t_obj t) g)) sel ch
+  = filter (fun c => negb (obj_in sel (d_obj (root_data c)))) ch.
+Proof.
+  revert ch. induction sel as [|a sel IH]; intro ch; simpl.
+  - symmetry. apply filter_all. reflexivity.
+  - rewrite IH, remove_child_filter, filter_filter. apply filter_ext. intro c.
+    unfold has_obj, obj_in. simpl. rewrite (Nat.eqb_sym (t_obj a)).
+    destruct (Nat.eqb (d_obj (root_data c)) (t_obj a)); reflexivity.
+Qed.
+
+Lemma same_obj_same_task (l : list task) a b :
+  NoDup (map t_obj l) -> In a l -> In b l -> t_obj a = t_obj b -> a = b.
+Proof.
+  induction l as [|x l IH]; simpl; intros Hn Ha Hb E; [contradiction |].
+  inversion Hn as [|? ? Hx Hn']; subst.
+  destruct Ha as [-> | Ha], Hb as [-> | Hb].
+  - reflexivity.
+  - exfalso. apply Hx. rewrite E. apply in_map, Hb.
+  - exfalso. apply Hx. rewrite <- E. apply in_map, Ha.
+  - apply IH; assumption.
+Qed.
+
+(* membership of an object in a selection made from a duplicate-free list = the selecting predicate *)
+Lemma obj_in_filter (m : task -> bool) (l : list task) t :
+  NoDup (map t_obj l) -> In t l -> obj_in (filter m l) (t_obj t) = m t.
+Proof.
+  intros Hn Ht. unfold obj_in. destruct (m t) eqn:E.
+  - apply existsb_exists. exists t. split; [apply filter_In; split; assumption | apply Nat.eqb_refl].
+  - destruct (existsb _ (filter m l)) eqn:X; [| reflexivity].
+    apply existsb_exists in X as [s [Hs Ho]]. apply filter_In in Hs as [Hs Hm]. apply Nat.eqb_eq in Ho.
+    rewrite (same_obj_same_task l s t Hn Hs Ht Ho) in Hm. congruence.
+Qed.
+
+Section RemoveAllProofs.
+Variable re_search : text -> text -> bool.
+Notation sat := (sat re_search get_attr).
+
+Lemma level_objs par ch : map t_obj (level par ch) = map (fun c => d_obj (root_data c)) ch.
+Proof. unfold level. rewrite map_map. reflexivity. Qed.
+
+(* C18_remove_all, list level (t.children.remove_all / wbs.roots.remove_all): the children that
+   match leave (each with its whole subtree, which hangs below it), the others stay in order with
+   their subtrees untouched, and the matching children are returned in list order *)
+Theorem list_remove_all_exact : forall k fs par ch ch' ret,
+  NoDup (map (fun c => d_obj (root_data c)) ch) ->
+  list_remove_all re_search k fs par ch = Ok (ch', ret) ->
+  ret = filter (sat k fs) (level par ch) /\
+  ch' = filter (fun c => negb (sat k fs (mk_task par (root_data c)))) ch.
+Proof.
+  intros k fs par ch ch' ret Hn H. unfold list_remove_all in H.
+  destruct (query re_search get_attr k fs (level par ch)) as [sel| |c] eqn:Q; simpl in H; try discriminate.
+  inversion H; subst ret ch'; clear H.
+  pose proof (query_select _ _ _ _ _ _ Q) as ->. split; [reflexivity |].
+  rewrite list_remove_fold. apply filter_ext_in. intros c Hc. f_equal.
+  change (d_obj (root_data c)) with (t_obj (mk_task par (root_data c))).
+  apply obj_in_filter.
+  - rewrite level_objs. exact Hn.
+  - unfold level. apply (in_map (fun t => mk_task par (root_data t))), Hc.
+Qed.
+
+End RemoveAllProofs.
+
+(* ---- WBS level: trees ---------------------------------------------------------------------------- *)
+Fixpoint objs (t : tree) : list nat := match t with Node d ch => d_obj d :: flat_map objs ch end.
+Definition fobjs (f : forest) : list nat := flat_map objs f.
+
+Lemma tree_ind2 (P : tree -> Prop) : (forall d ch, Forall P ch -> P (Node d ch)) -> forall t, P t.
+Proof.
+  intro H. fix IH 1. intros [d ch]. apply H.
+  induction ch as [|c ch IHch]; constructor; [apply IH | exact IHch].
+Qed.
+
+Lemma fm_app {A B} (f : A -> list B) a b : flat_map f (a ++ b) = flat_map f a ++ flat_map f b.
+Proof. induction a as [|x a IH]; simpl; [reflexivity | rewrite IH, app_assoc; reflexivity]. Qed.
+
+(* the specification: drop every node selected by a predicate, with everything below it *)
+Fixpoint prune (m : task -> bool) (par : option value) (t : tree) : forest :=
+  match t with
+  | Node d ch => if m (mk_task par d) then [] else [Node d (flat_map (prune m (Some (d_id d))) ch)]
+  end.
+
+(* the same by object identity *)
+Fixpoint prune_objs (P : nat -> bool) (t : tree) : forest :=
+  match t with Node d ch => if P (d_obj d) then [] else [Node d (flat_map (prune_objs P) ch)] end.
+
+Lemma flat_objs t : forall par, map t_obj (flat par t) = objs t.
+Proof.
+  induction t as [d ch IH] using tree_ind2. intro par. simpl. f_equal.
+  induction IH as [|c ch Hc _ IHch]; simpl; [reflexivity |]. rewrite map_app, Hc, IHch. reflexivity.
+Qed.
+
+Lemma flat_forest_objs par f : map t_obj (flat_forest par f) = fobjs f.
+Proof.
+  unfold flat_forest, fobjs. induction f as [|t f IH]; simpl; [reflexivity |].
+  rewrite map_app, flat_objs, IH. reflexivity.
+Qed.
+
+Lemma prune_objs_id P t : (forall o, In o (objs t) -> P o = false) -> prune_objs P t = [t].
+Proof.
+  induction t as [d ch IH] using tree_ind2. intro H. simpl.
+  rewrite (H (d_obj d) (or_introl eq_refl)). do 2 f_equal.
+  assert (Hch : forall o, In o (flat_map objs ch) -> P o = false) by (intros o Ho; apply H; right; exact Ho).
+  clear H. induction IH as [|c ch Hc _ IHch]; simpl; [reflexivity |].
+  rewrite Hc, IHch; [reflexivity | |]; intros o Ho; apply Hch; simpl; apply in_or_app; [right | left]; exact Ho.
+Qed.
+
+Lemma prune_forest_id P f : (forall o, In o (fobjs f) -> P o = false) -> flat_map (prune_objs P) f = f.
+Proof.
+  induction f as [|t f IH]; simpl; intro H; [reflexivity |].
+  rewrite prune_objs_id, IH; [reflexivity | |]; intros o Ho; apply H; unfold fobjs; simpl; apply in_or_app;
+    [right | left]; exact Ho.
+Qed.
+
+Lemma prune_objs_ext P Q t : (forall o, P o = Q o) -> prune_objs P t = prune_objs Q t.
+Proof.
+  intro E. induction t as [d ch IH] using tree_ind2. simpl. rewrite E. destruct (Q (d_obj d)); [reflexivity |].
+  do 2 f_equal. induction IH as [|c ch Hc _ IHch]; simpl; [reflexivity | rewrite Hc, IHch; reflexivity].
+Qed.
+
+Lemma prune_forest_ext P Q f : (forall o, P o = Q o) -> flat_map (prune_objs P) f = flat_map (prune_objs Q) f.
+Proof. intro E. induction f as [|t f IH]; simpl; [reflexivity | rewrite (prune_objs_ext P Q t E), IH; reflexivity]. Qed.
+
+Lemma prune_objs_compose P Q t :
+  flat_map (prune_objs P) (prune_objs Q t) = prune_objs (fun o => Q o || P o) t.
+Proof.
+  induction t as [d ch IH] using tree_ind2. simpl. destruct (Q (d_obj d)); simpl; [reflexivity |].
+  rewrite app_nil_r. destruct (P (d_obj d)); [reflexivity |]. do 2 f_equal.
+  induction IH as [|c ch Hc _ IHch]; simpl; [reflexivity |]. rewrite fm_app, Hc, IHch. reflexivity.
+Qed.
+
+Lemma prune_forest_compose P Q f :
+  flat_map (prune_objs P) (flat_map (prune_objs Q) f) = flat_map (prune_objs (fun o => Q o || P o)) f.
+Proof. induction f as [|t f IH]; simpl; [reflexivity | rewrite fm_app, prune_objs_compose, IH; reflexivity]. Qed.
+
+Lemma prune_objs_keeps P t :
+  (forall o, In o (fobjs (prune_objs P t)) -> In o (objs t)) /\
+  (NoDup (objs t) -> NoDup (fobjs (prune_objs P t))).
+Proof.
+  induction t as [d ch IH] using tree_ind2.
+  assert (F : (forall o, In o (fobjs (flat_map (prune_objs P) ch)) -> In o (fobjs ch)) /\
+              (NoDup (fobjs ch) -> NoDup (fobjs (flat_map (prune_objs P) ch)))).
+  { induction IH as [|c ch [Hc1 Hc2] _ [I1 I2]]; simpl.
+    - split; [intros o [] | intros _; constructor].
+    - unfold fobjs in *. simpl. rewrite fm_app. split.
+      + intros o Ho. apply in_app_or in Ho as [Ho | Ho]; apply in_or_app; [left; apply Hc1, Ho | right; apply I1, Ho].
+      + intro Hn. apply nodup_app in Hn as [Na [Nb Nd]]. apply nodup_app. repeat split.
+        * apply Hc2, Na.
+        * apply I2, Nb.
+        * intros x Hx Hy. apply (Nd x); [apply Hc1, Hx | apply I1, Hy]. }
+  destruct F as [F1 F2]. simpl. destruct (P (d_obj d)); simpl.
+  - split; [intros o [] | intros _; constructor].
+  - unfold fobjs. simpl. rewrite app_nil_r. split.
+    + intros o [Ho | Ho]; [left; exact Ho | right; apply F1, Ho].
+    + intro Hn. inversion Hn as [|? ? Hx Hn']; subst. constructor; [intro Hi; apply Hx, F1, Hi | apply F2, Hn'].
+Qed.
+
+Lemma prune_forest_nodup P f : NoDup (fobjs f) -> NoDup (fobjs (flat_map (prune_objs P) f)).
+Proof.
+  induction f as [|t f IH]; simpl; intro Hn; [constructor |].
+  unfold fobjs in *. simpl in Hn. rewrite fm_app. apply nodup_app in Hn as [Na [Nb Nd]]. apply nodup_app. repeat split.
+  - apply prune_objs_keeps, Na.
+  - apply IH, Nb.
+  - intros x Hx Hy. apply (Nd x); [apply (proj1 (prune_objs_keeps P t)), Hx |].
+    clear - Hy. induction f as [|c f IHf]; simpl in *; [contradiction |]. rewrite fm_app in Hy.
+    apply in_app_or in Hy as [Hy | Hy]; apply in_or_app;
+      [left; apply (proj1 (prune_objs_keeps P c)), Hy | right; apply IHf, Hy].
+Qed.
+
+(* one WBS.__remove = pruning the one object, wherever it is *)
+Definition is_obj (o : nat) : nat -> bool := fun x => Nat.eqb x o.
+
+Lemma existsb_is_obj o l : existsb (is_obj o) l = true <-> In o l.
+Proof.
+  rewrite existsb_exists. unfold is_obj. split.
+  - intros [x [Hx E]]. apply Nat.eqb_eq in E. subst. exact Hx.
+  - intro H. exists o. split; [exact H | apply Nat.eqb_refl].
+Qed.
+
+Lemma existsb_is_obj_false o l : existsb (is_obj o) l = false <-> ~ In o l.
+Proof.
+  rewrite <- existsb_is_obj. destruct (existsb (is_obj o) l); split; intro H; try reflexivity; try discriminate.
+  exfalso. apply H. reflexivity.
+Qed.
+
+Definition remove_under_ok (o : nat) (t : tree) : Prop :=
+  NoDup (objs t) ->
+  remove_under o t = (Node (root_data t) (flat_map (prune_objs (is_obj o)) (kids t)), existsb (is_obj o) (fobjs (kids t))).
+
+Lemma root_in_objs c : In (d_obj (root_data c)) (objs c).
+Proof. destruct c. left. reflexivity. Qed.
+
+Lemma remove_child_spec o ch :
+  NoDup (fobjs ch) -> existsb (has_obj o) ch = true ->
+  filter (fun c => negb (has_obj o c)) ch = flat_map (prune_objs (is_obj o)) ch /\ In o (fobjs ch).
+Proof.
+  induction ch as [|c ch IH]; simpl; intros Hn Hex; [discriminate |].
+  unfold fobjs in *. simpl in *. apply nodup_app in Hn as [Na [Nb Nd]].
+  destruct (has_obj o c) eqn:Hc; simpl.
+  - unfold has_obj in Hc. apply Nat.eqb_eq in Hc.
+    assert (Ho : In o (objs c)) by (rewrite <- Hc; apply root_in_objs).
+    assert (Hp : prune_objs (is_obj o) c = []).
+    { destruct c as [d kids0]. simpl in *. unfold is_obj. rewrite Hc, Nat.eqb_refl. reflexivity. }
+    rewrite Hp. simpl. split; [| apply in_or_app; left; exact Ho].
+    rewrite (prune_forest_id (is_obj o) ch).
+    + apply filter_all. intros c' Hc'. apply negb_true_iff. unfold has_obj.
+      destruct (Nat.eqb (d_obj (root_data c')) o) eqn:E; [| reflexivity]. apply Nat.eqb_eq in E.
+      exfalso. apply (Nd o Ho). apply in_flat_map. exists c'. split; [exact Hc' | rewrite <- E; apply root_in_objs].
+    + intros x Hx. unfold is_obj. destruct (Nat.eqb x o) eqn:E; [| reflexivity]. apply Nat.eqb_eq in E. subst x.
+      exfalso. exact (Nd o Ho Hx).
+  - destruct (IH Nb Hex) as [IH1 IH2]. split; [| apply in_or_app; right; exact IH2].
+    rewrite IH1, (prune_objs_id (is_obj o) c); [reflexivity |].
+    intros x Hx. unfold is_obj. destruct (Nat.eqb x o) eqn:E; [| reflexivity]. apply Nat.eqb_eq in E. subst x.
+    exfalso. exact (Nd o Hx IH2).
+Qed.
+
+Lemma first_hit_spec o ch :
+  Forall (remove_under_ok o) ch -> NoDup (fobjs ch) -> existsb (has_obj o) ch = false ->
+  first_hit (remove_under o) ch = (flat_map (prune_objs (is_obj o)) ch, existsb (is_obj o) (fobjs ch)).
+Proof.
+  intro F. induction F as [|c ch Hc _ IH]; simpl; intros Hn Hex; [reflexivity |].
+  unfold fobjs in *. simpl in *. apply nodup_app in Hn as [Na [Nb Nd]].
+  apply orb_false_iff in Hex as [Hc0 Hex].
+  rewrite (Hc Na). unfold fobjs. rewrite existsb_app.
+  assert (Hroot : is_obj o (d_obj (root_data c)) = false) by exact Hc0.
+  assert (Hp : prune_objs (is_obj o) c = [Node (root_data c) (flat_map (prune_objs (is_obj o)) (kids c))]).
+  { destruct c as [d kids0]. simpl in *. rewrite Hroot. reflexivity. }
+  assert (Hobjs : existsb (is_obj o) (objs c) = existsb (is_obj o) (flat_map objs (kids c))).
+  { destruct c as [d kids0]. simpl in *. rewrite Hroot. reflexivity. }
+  rewrite Hp, Hobjs.
+  destruct (existsb (is_obj o) (flat_map objs (kids c))) eqn:Hit; simpl.
+  - f_equal. f_equal. symmetry. apply prune_forest_id.
+    intros x Hx. unfold is_obj. destruct (Nat.eqb x o) eqn:E; [| reflexivity]. apply Nat.eqb_eq in E. subst x.
+    exfalso. apply (Nd o); [| exact Hx]. apply existsb_is_obj in Hit. destruct c as [d kids0]. right. exact Hit.
+  - rewrite (IH Nb Hex). f_equal. f_equal.
+    destruct c as [d kids0]. simpl in *. f_equal. symmetry. apply prune_forest_id.
+    intros x Hx. unfold is_obj. destruct (Nat.eqb x o) eqn:E; [| reflexivity]. apply Nat.eqb_eq in E. subst x.
+    apply existsb_is_obj_false in Hit. contradiction.
+Qed.
+
+Lemma remove_level_spec o ch :
+  Forall (remove_under_ok o) ch -> NoDup (fobjs ch) ->
+  remove_level (remove_under o) o ch = (flat_map (prune_objs (is_obj o)) ch, existsb (is_obj o) (fobjs ch)).
+Proof.
+  intros F Hn. unfold remove_level, remove_child. destruct (existsb (has_obj o) ch) eqn:Hex.
+  - destruct (remove_child_spec o ch Hn Hex) as [H1 H2]. rewrite H1.
+    apply existsb_is_obj in H2. rewrite H2. reflexivity.
+  - apply first_hit_spec; assumption.
+Qed.
+
+Lemma remove_under_spec o t : remove_under_ok o t.
+Proof.
+  induction t as [d ch IH] using tree_ind2. unfold remove_under_ok. intro Hn. simpl.
+  inversion Hn as [|? ? _ Hn']; subst. fold (fobjs ch) in Hn'.
+  rewrite (remove_level_spec o ch IH Hn'). reflexivity.
+Qed.
+
+Lemma wbs_remove_spec o f : NoDup (fobjs f) -> wbs_remove o f = flat_map (prune_objs (is_obj o)) f.
+Proof.
+  intro Hn. unfold wbs_remove. rewrite remove_level_spec; [reflexivity | | exact Hn].
+  apply Forall_forall. intros t _. apply remove_under_spec.
+Qed.
+
+Lemma wbs_remove_fold sel f :
+  NoDup (fobjs f) ->
+  fold_left (fun g t => wbs_remove (t_obj t) g) sel f = flat_map (prune_objs (obj_in sel)) f.
+Proof.
+  revert f. induction sel as [|a sel IH]; intros f Hn; simpl.
+  - symmetry. apply prune_forest_id. reflexivity.
+  - rewrite (wbs_remove_spec _ _ Hn), IH by (apply prune_forest_nodup, Hn).
+    rewrite prune_forest_compose. apply prune_forest_ext. intro o. unfold is_obj, obj_in. simpl.
+    rewrite (Nat.eqb_sym o). reflexivity.
+Qed.
+
+Lemma prune_as_objs (m : task -> bool) P t : forall par,
+  (forall x, In x (flat par t) -> m x = P (t_obj x)) -> prune m par t = prune_objs P t.
+Proof.
+  induction t as [d ch IH] using tree_ind2. intros par H. simpl.
+  rewrite (H (mk_task par d)) by (left; reflexivity). simpl. destruct (P (d_obj d)); [reflexivity |].
+  do 2 f_equal.
+  assert (Hch : forall x, In x (flat_map (flat (Some (d_id d))) ch) -> m x = P (t_obj x))
+    by (intros x Hx; apply H; right; exact Hx).
+  clear H. induction IH as [|c ch Hc _ IHch]; simpl; [reflexivity |].
+  rewrite Hc, IHch; [reflexivity | |]; intros x Hx; apply Hch; simpl; apply in_or_app; [right | left]; exact Hx.
+Qed.
+
+Lemma prune_forest_as_objs (m : task -> bool) P par f :
+  (forall x, In x (flat_forest par f) -> m x = P (t_obj x)) ->
+  flat_map (prune m par) f = flat_map (prune_objs P) f.
+Proof.
+  unfold flat_forest. induction f as [|t f IH]; simpl; intro H; [reflexivity |].
+  rewrite (prune_as_objs m P t par), IH; [reflexivity | |]; intros x Hx; apply H; apply in_or_app; [right | left]; exact Hx.
+Qed.
+
+Section WbsRemoveAll.
+Variable re_search : text -> text -> bool.
+Notation sat := (sat re_search get_attr).
+
+(* C18_remove_all, WBS level: the calls of WBS.__remove, one per matching task in order - also for
+   a matching task that already left with a matching ancestor - amount to pruning exactly the
+   matching tasks with their subtrees; the matching tasks are returned in WBS order *)
+Theorem wbs_remove_all_exact : forall k fs f f' ret,
+  NoDup (fobjs f) ->
+  wbs_remove_all re_search k fs f = Ok (f', ret) ->
+  ret = filter (sat k fs) (flat_forest None f) /\
+  f' = flat_map (prune (sat k fs) None) f.
+Proof.
+  intros k fs f f' ret Hn H. unfold wbs_remove_all in H.
+  destruct (query re_search get_attr k fs (flat_forest None f)) as [sel| |c] eqn:Q; simpl in H; try discriminate.
+  inversion H; subst ret f'; clear H.
+  pose proof (query_select _ _ _ _ _ _ Q) as ->. split; [reflexivity |].
+  rewrite (wbs_remove_fold _ _ Hn). symmetry. apply prune_forest_as_objs.
+  intros x Hx. symmetry. apply obj_in_filter; [rewrite flat_forest_objs; exact Hn | exact Hx].
+Qed.
+
+(* when the query raises, remove_all raises before anything is removed (it returns no forest) *)
+Theorem wbs_remove_all_raises : forall k fs f,
+  (forall r, wbs_remove_all re_search k fs f <> Ok r) <->
+  (forall sel, query re_search get_attr k fs (flat_forest None f) <> Ok sel).
+Proof.
+  intros k fs f. unfold wbs_remove_all.
+  destruct (query re_search get_attr k fs (flat_forest None f)) as [sel| |c]; simpl; split; intros H x E;
+    try discriminate; try (eapply H; reflexivity).
+Qed.
+
+End WbsRemoveAll.
+
+(* what pruning means, in words: a task stays iff neither it nor any of its ancestors matched *)
+Lemma prune_none m par t : (forall x, In x (flat par t) -> m x = false) -> prune m par t = [t].
+Proof.
+  intro H. rewrite (prune_as_objs m (fun _ => false) t par H). apply prune_objs_id. reflexivity.
+Qed.
+
+Lemma prune_root m par d ch : m (mk_task par d) = true -> prune m par (Node d ch) = [].
+Proof. intro H. simpl. rewrite H. reflexivity. Qed.
